@@ -40,7 +40,8 @@ pub fn lit_programs(tier: &str) -> (Vec<Program>, String) {
         v.extend(fam::lit(1, 3, 1, 3, false, false));
         v.extend(fam::lit(2, 3, 1, 3, false, false));
         v.extend(fam::lit_spawn_stagger(false));
-        level = "LIT: staggered spawns (main accesses/fences between two spawns); 2 threads, <=3 events on 1 location, <=4 events on 2 locations; 3 threads x 1 event on 1-2 locations (reduced orderings) + sentinels".to_string();
+        v.extend(fam::lit_coh3(false));
+        level = "LIT: coherence through a third thread (A: x-op, publish; B: subscribe, 1-2 x-ops; C: 1-2 x-ops); staggered spawns (main accesses/fences between two spawns); 2 threads, <=3 events on 1 location, <=4 events on 2 locations; 3 threads x 1 event on 1-2 locations (reduced orderings) + sentinels".to_string();
     } else {
         v.extend(fam::lit(1, 2, 3, 4, true, true));
         v.extend(fam::lit(2, 2, 2, 4, true, true));
@@ -48,7 +49,8 @@ pub fn lit_programs(tier: &str) -> (Vec<Program>, String) {
         v.extend(fam::lit(2, 3, 2, 4, false, false));
         v.extend(fam::lit(1, 2, 3, 5, false, false));
         v.extend(fam::lit_spawn_stagger(true));
-        level = "LIT: staggered spawns; 2 threads <=4 events (all orderings, CAS), <=5 events on one location (reduced orderings), 3 threads <=4 events (reduced orderings) + sentinels".to_string();
+        v.extend(fam::lit_coh3(true));
+        level = "LIT: coherence through a third thread (5 publication idioms, two hops); staggered spawns; 2 threads <=4 events (all orderings, CAS), <=5 events on one location (reduced orderings), 3 threads <=4 events (reduced orderings) + sentinels".to_string();
     }
     v.extend(fam::lit_sentinels());
     (v, level)
@@ -489,6 +491,10 @@ pub fn spec(check: &str, tier: &str) -> Option<CheckSpec> {
             let (a, l1) = arc_programs(tier, true);
             progs.extend(a);
             progs.extend(fam::chan_payload_family());
+            let (da, dl) = if tier == "quick" { (4, 5) } else { (6, 7) };
+            progs.extend(fam::arc_seq_family(da));
+            progs.extend(fam::alloc_seq_family(dl));
+            let l1 = format!("{}; ARC-seq: every main-only sequence of <= {} handle ops with a release followed by a new Arc; ALLOC-seq: every sequence of <= {} alloc/dealloc/Track/Arc ops", l1, da, dl);
             Some(CheckSpec {
                 id: "C10",
                 level: "model_checking",
@@ -502,7 +508,10 @@ pub fn spec(check: &str, tier: &str) -> Option<CheckSpec> {
             })
         }
         "C11" => {
-            let (progs, level) = arc_programs(tier, false);
+            let (mut progs, level) = arc_programs(tier, false);
+            let da = if tier == "quick" { 4 } else { 6 };
+            progs.extend(fam::arc_seq_family(da));
+            let level = format!("{}; ARC-seq: every main-only sequence of <= {} handle ops with a release followed by a new Arc", level, da);
             Some(CheckSpec {
                 id: "C11",
                 level: "model_checking",
@@ -595,6 +604,9 @@ pub fn lock_programs(tier: &str) -> (Vec<Program>, String) {
         level = "LOCK: 2 mutexes 2 threads x <=5 ops; mutex+rwlock 2 threads x <=4; 3 threads <=8 ops; + sentinels".to_string();
     }
     v.extend(fam::lock_sentinels());
+    v.extend(fam::lock_value_family(tier != "quick"));
+    v.extend(fam::lock_nested_family(tier != "quick"));
+    let level = level + "; LOCK-value: 2-3 children x 1-2 sections reading and overwriting the protected value, then get_mut / into_inner in main; LOCK-nested: recv/send, Notify wait/notify or a join inside two lock sections of every kind";
     (v, level)
 }
 
@@ -613,6 +625,8 @@ pub fn wait_programs(tier: &str) -> (Vec<Program>, String) {
         level = "WAIT: 2 children x <=2 blocks + main <=1; 3 children x 1 block + main <=1; 1 child x <=3 blocks + main <=2".to_string();
     }
     v.extend(fam::held_lock_deadlocks());
+    v.extend(fam::wait_rounds());
+    let level = level + "; WAIT-rounds: one Notify / park token / condvar reused for 2-3 acknowledged rounds";
     (v, level)
 }
 
